@@ -20,7 +20,7 @@ PROPERTY = {
                'flags': 'safe flag of each source symbolic; one !unsafe marker (symbolic presence) on the node / its wrapper / an argument / the referenced data of a selected stage'},
     'outside': ['!rec nodes, unsafe includes (C06 covers include safety inheritance)', 'more than 3 stages'],
     'per_split_timeout': {'quick': 600, 'thorough': 1800},
-    'wall_budget': {'quick': 900, 'thorough': 3400},
+    'wall_budget': {'quick': 1500, 'thorough': 7000},
 }
 
 F = 'engine.targets.f'
